@@ -11,19 +11,24 @@ Variable D : Type.
 Variable K : nat.
 Variable stranded : bool.
 Variable fmt : D -> jtree.
+Variable render : jtree -> list token.
+Hypothesis render_ok : forall t, parses (render t) t.
 Notation graph := (graph D).
 Notation gnode := (gnode D).
 Notation edges := (edges D K stranded).
+
+Lemma member_tokens_pair k c : member_tokens (k, c) = STR k :: COLON :: c.
+Proof. reflexivity. Qed.
 
 (* ---- nodes *)
 Fixpoint node_chunks (k start : nat) (ns : list gnode) : list (list token) :=
   match ns with
   | [] => []
-  | n :: r => node_json D fmt k start n :: node_chunks (S k) (start + List.length (n_seq D n)) r
+  | n :: r => node_json D fmt render k start n :: node_chunks (S k) (start + List.length (n_seq D n)) r
   end.
 
 Lemma nodes_loop_join ns : forall k st,
-  nodes_loop D fmt (k + List.length ns) st (combine (seq k (List.length ns)) ns) = sepjoin (node_chunks k st ns).
+  nodes_loop D fmt render (k + List.length ns) st (combine (seq k (List.length ns)) ns) = sepjoin (node_chunks k st ns).
 Proof.
   induction ns as [|n r IH]; intros k st; [reflexivity|].
   cbn [List.length seq combine nodes_loop node_chunks sepjoin].
@@ -36,14 +41,16 @@ Proof.
 Qed.
 
 Lemma node_json_parses k st n :
-  parses (node_json D fmt k st n)
+  parses (node_json D fmt render k st n)
          (JObj [(bs "id", JStr (dec k)); (bs "L", JNum (N.of_nat (List.length (n_seq D n))));
                 (bs "D", fmt (n_data D n)); (bs "Se", JStr (se_bytes st (n_seq D n)))]).
 Proof.
-  change (node_json D fmt k st n) with
-    (obj_tokens [(bs "id", [STR (dec k)]); (bs "L", [NUM (N.of_nat (List.length (n_seq D n)))]);
-                 (bs "D", [VAL (fmt (n_data D n))]); (bs "Se", [STR (se_bytes st (n_seq D n))])]).
-  apply parses_obj. repeat constructor; cbn [fst snd]; auto using parses_str, parses_num, parses_val.
+  assert (E : node_json D fmt render k st n =
+    obj_tokens [(bs "id", [STR (dec k)]); (bs "L", [NUM (N.of_nat (List.length (n_seq D n)))]);
+                (bs "D", render (fmt (n_data D n))); (bs "Se", [STR (se_bytes st (n_seq D n))])]).
+  { unfold node_json, obj_tokens. cbn [map sepjoin flat_map]. rewrite !member_tokens_pair. cbn [app].
+    repeat (rewrite <- app_assoc; cbn [app]). reflexivity. }
+  rewrite E. apply parses_obj. repeat constructor; cbn [fst snd]; auto using parses_str, parses_num.
 Qed.
 
 Lemma node_chunks_parse ns : forall k st,
@@ -108,20 +115,17 @@ Qed.
 
 (* ---- the whole object *)
 Definition rest_members (rest : list (list N * jtree)) : list (list N * list token) :=
-  map (fun kv => (fst kv, [VAL (snd kv)])) rest.
+  map (fun kv => (fst kv, render (snd kv))) rest.
 
 Lemma rest_json_join rest :
-  rest_json rest = flat_map (fun x => COMMA :: x) (map member_tokens (rest_members rest)).
+  rest_json render rest = flat_map (fun x => COMMA :: x) (map member_tokens (rest_members rest)).
 Proof.
   unfold rest_json, rest_members. induction rest as [|kv r IH]; [reflexivity|].
-  cbn [flat_map map member_tokens fst snd app]. now rewrite IH.
+  cbn [flat_map map]. rewrite IH, member_tokens_pair. cbn [fst snd app]. reflexivity.
 Qed.
 
-Lemma member_tokens_pair k c : member_tokens (k, c) = STR k :: COLON :: c.
-Proof. reflexivity. Qed.
-
 Lemma to_json_rest_obj g rest :
-  to_json_rest D K stranded fmt g rest =
+  to_json_rest D K stranded fmt render g rest =
   obj_tokens ((bs "nodes", arr_tokens (node_chunks 0 0 g)) ::
               (bs "links", arr_tokens (link_chunks g (seq 0 (List.length g)))) :: rest_members rest).
 Proof.
@@ -132,18 +136,18 @@ Proof.
 Qed.
 
 Theorem json_wellformed (g : graph) (rest : list (list N * jtree)) :
-  parse_json (to_json_rest D K stranded fmt g rest) = Some (json_tree D K stranded fmt g rest).
+  parse_json (to_json_rest D K stranded fmt render g rest) = Some (json_tree D K stranded fmt g rest).
 Proof.
   apply parses_json. rewrite to_json_rest_obj. unfold json_tree. apply parses_obj.
   constructor; [|constructor].
   - cbn [fst snd]. split; [reflexivity|]. apply parses_arr. apply (node_chunks_parse g 0 0).
   - cbn [fst snd]. split; [reflexivity|]. apply parses_arr. apply link_chunks_parse.
   - induction rest as [|kv r IH]; cbn [rest_members map]; constructor; auto.
-    cbn [fst snd]. split; [reflexivity|apply parses_val].
+    cbn [fst snd]. split; [reflexivity|apply render_ok].
 Qed.
 
 Corollary to_json_wellformed (g : graph) :
-  parse_json (to_json D K stranded fmt g) = Some (json_tree D K stranded fmt g []).
+  parse_json (to_json D K stranded fmt render g) = Some (json_tree D K stranded fmt g []).
 Proof. apply json_wellformed. Qed.
 
 (* what the tree lists: one entry per node, in order, with its id, length, data *)
